@@ -269,7 +269,12 @@ func (w *walker) render(ptr interface{}) (string, []span) {
 }
 
 // fingerprint: the value without locations (strict: nil and empty are different).
-func fingerprint(shared map[string]int, ptr interface{}) string {
+func fingerprint(shared map[string]int, ptr interface{}) (s string) {
+	defer func() {
+		if e := recover(); e != nil {
+			s = fmt.Sprint("unreadable: ", e)
+		}
+	}()
 	w := &walker{ids: map[uintptr]int{}, next: 1, shared: shared, plain: true}
 	return w.val(reflect.ValueOf(ptr).Elem())
 }
